@@ -343,6 +343,30 @@ func init() {
 						}
 					}
 				}
+				if scheme == "pypi" {
+					// pre-release versions in constraints and as the probe (the adapter decides the PEP 440
+					// pre-release default from the constraint texts)
+					fin, pre := "{d}.{d}", "{d}.{d}{[abc]}{d}"
+					for _, pat := range [][]string{{">=", "!="}, {"!=", "<"}, {"!=", "!="}, {"=", "!="}, {">=", "<"}} {
+						for _, vs := range [][2]string{{fin, pre}, {pre, fin}} {
+							var trs []string
+							trs = append(trs, "perm:1,0", "dup:0", "dup:1", "empty:0", "empty:1", "empty:2")
+							for i := 0; i < 2; i++ {
+								for j := 0; j <= len(pat[i])+templateLen(vs[i]); j++ {
+									trs = append(trs, fmt.Sprintf("ws:%d:%d", i, j))
+								}
+							}
+							for _, tr := range trs {
+								w := ArgStr("")
+								if strings.HasPrefix(tr, "ws:") {
+									w = ArgStr(" ")
+								}
+								out = append(out, &Config{ID: fmt.Sprintf("C16/%s/pre/%s/%s|%s/%s", scheme, strings.Join(pat, " "), vs[0], vs[1], tr), Pkg: zzhPkg, Func: "C16Inv",
+									Args: []ArgSpec{ArgStr(eco), ArgStr(scheme), ArgStr(strings.Join(pat, " ")), ArgTmpl(vs[0]), ArgTmpl(vs[1]), ArgTmpl(""), ArgTmpl(""), ArgTmpl(pre), ArgStr(tr), w}})
+							}
+						}
+					}
+				}
 				// k = 4 with an exclusion or a point between two bounds of one direction and a bound of the other
 				// (the grouping then depends on the sorted order of the same-direction bounds): every permutation
 				mixed4 := [][]string{{">=", ">", "!=", "<"}, {">=", "!=", "<", "<="}}
